@@ -3,8 +3,8 @@
 package proxy
 
 import (
-	"net/http"
 	"fmt"
+	"net/http"
 	"strconv"
 	"strings"
 	"time"
@@ -24,7 +24,7 @@ type revalParams struct {
 // Events: G<k> = GET with client conditional kind k; X = advance to 1 s past the model's
 // expiry; Y = advance to 1 s before it; B = origin content changes; F404/F500 = the
 // origin answers the next request with that status.
-var revalAlphabet = []string{"G0", "G1", "G2", "G3", "G4", "G5", "G6", "X", "Y", "B", "F404", "F500", "f503"}
+var revalAlphabet = []string{"G0", "G1", "G2", "G3", "G4", "G5", "G6", "G7", "X", "Y", "B", "F404", "F500", "f503"}
 
 // The last three: the stored response had a strong ETag and the origin's 304 prints it in weak
 // form, prints another tag, or prints no validator at all. A 304 says "what you have is still
@@ -45,6 +45,10 @@ func clientConditional(kind string, now time.Time) vnet.H {
 		return vnet.H{{"If-Modified-Since", "yesterday"}}
 	case "G5":
 		return vnet.H{{"If-Match", `"zzz-client"`}, {"If-Unmodified-Since", "garbage-date"}}
+	case "G7":
+		// a client's own cache directives and dates say what that client will accept; they are no part of how
+		// long the stored response (or its renewal by a 304) lives
+		return vnet.H{{"Cache-Control", "max-age=86400"}, {"Expires", httpDate(now.Add(48 * time.Hour))}}
 	case "G6":
 		// the client declares the validator fields hop-by-hop: that concerns its own connection, not what
 		// the proxy asks the origin with
@@ -189,6 +193,10 @@ func runRevalCase(c *vrun.Ctx, env *penv, scheme string, hist []string, defaultA
 	report := func(kind, msg string) {
 		c.SetCase(desc)
 		c.Violation("C06/reval/"+kind+"/"+scheme, msg+" | "+desc, nil)
+		if kind == "stale-served-without-contact" || kind == "contact-while-fresh" {
+			// the same observation is C03's: served without contacting the origin exactly while fresh
+			c.Violation("C03/reval/"+kind+"/"+scheme, msg+" | "+desc, nil)
+		}
 	}
 	// model
 	type storedT struct {
